@@ -552,6 +552,20 @@ def main(tier):
     ntrees += len(nested)
     for i in range(0, len(nested), 16):
         tasks.append((nested[i:i + 16], syms, tuple(range(1, 14)), True))
+    # nested rounding whose OUTER divisor is symbolic and changes sign over the bindings (N - M, M - N, 2 - N, -N ...),
+    # simplified: identities such as floor(floor(x)/n) == floor(x/n) hold for positive n only
+    M = ("sym", "M")
+    signed = [("-", N, M), ("-", M, N), ("-", ("int", 2), N), ("-", N, ("int", 3)), ("neg", N), ("-", ("int", 1), M), ("*", ("-", N, M), ("int", 2))]
+    inner_round = []
+    for a in (("int", 2), ("int", 3), M):
+        inner_round += [("//", N, a), ("floor", ("/", N, a)), ("ceil", ("/", N, a)), ("%", N, a), ("trunc", ("/", N, a))]
+    signed_div = []
+    for it in inner_round:
+        for dv in signed:
+            signed_div += [("//", it, dv), ("floor", ("/", it, dv)), ("ceil", ("/", it, dv)), ("%", it, dv), ("//", ("+", it, ("int", 1)), dv)]
+    ntrees += len(signed_div)
+    for i in range(0, len(signed_div), 12):
+        tasks.append((signed_div[i:i + 12], syms, (1, 2, 3, 4, 5, 8), True))
     for leaves, depth, bins, uns, domain, simp in plans:
         trees = gen_trees(leaves, depth, bins, uns)
         ntrees += len(trees)
